@@ -211,6 +211,7 @@ type Obl struct {
 	Size    int
 	Text    string
 	Replay  *ReplayInfo
+	vacDone bool
 }
 
 type Exec struct {
